@@ -142,7 +142,7 @@ def check_str_section(name: str, payload: bytes):
 
 def run(ck: vlib.Check):
     ck.rule = ("sentinel payloads (position-dependent bytes so that every field differs from its neighbours, "
-               "saturated, random) for every recognised section at every legal size; implementation decode compared "
+               "saturated, random) for every recognised section at every legal size, sparse record arrays, and trigger records carrying the EUD mask word; implementation decode compared "
                "BY FIELD NAME with an independent reader of the format description, implementation encode of the "
                "spec-built model compared with the payload, and implementation decode compared with the extracted "
                "model. Distinct = distinct payloads; all are non-trivial except the empty MRGN/TRIG.")
@@ -173,6 +173,18 @@ def run(ck: vlib.Check):
         for h in holes_a:
             b[320 + 32 * h: 320 + 32 * h + 32] = bytes(32)
         cases.append(("TRIG", bytes(b)))
+    # ... and the one value of a trigger field the format gives a meaning of its own: the mask word "SC" of a masked (EUD)
+    # condition / action, next to every value of the flags byte and with the other fields as they come
+    for mode in (0, 1, 2):
+        for flags in (0xFF, 0x10, 0x16, 0x00):
+            b = bytearray(sentinel_payload(rng, 2400, mode))
+            for k in range(16):
+                b[20 * k + 17] = flags if k % 2 == 0 else b[20 * k + 17]
+                b[20 * k + 18: 20 * k + 20] = b"SC"
+            for k in range(64):
+                b[320 + 32 * k + 28] = flags if k % 2 == 0 else b[320 + 32 * k + 28]
+                b[320 + 32 * k + 30: 320 + 32 * k + 32] = b"SC"
+            cases.append(("TRIG", bytes(b)))
     for w, name in ((2, "STR "), (4, "STRx")):
         for _ in range(30 * reps):
             cases.append((name, S.gen_str_payload(rng, w)))
